@@ -37,7 +37,8 @@ FAMS = ["single:conv@8", "single:dw@8", "single:maxpool@8", "single:avgpool@8", 
         "single:mean_big@8", "single:pad_pool@8", "single:pad_pool@8", "single:slice_masks@8", "single:dw_mult@8", "single:conv_1d@8", "ew_chain", "concat_split",
         "single:exp@8", "single:rsqrt@8", "rewrite_patterns", "rewrite_patterns",
         "single:conv_groups@8", "single:conv_groups@8", "single:pool_global_stride@8",
-        "single:ew_self@8", "single:concat_dup@8", "single:ew_bcast2@8", "single:split_partial@8", "single:reshape_fan@8", "cpu_fan", "cpu_fan", "single:resize_hp16@8"]
+        "single:ew_self@8", "single:concat_dup@8", "single:ew_bcast2@8", "single:split_partial@8", "single:reshape_fan@8", "cpu_fan", "cpu_fan", "single:resize_hp16@8",
+        "branchy", "ew_dag", "multi_input", "split_conv", "mixed_cpu", "multi_custom", "one_channel_tail"]
 if os.environ.get("VERIF_C01_FAMS"):        # development aid: restrict the generated part to some families
     FAMS = os.environ["VERIF_C01_FAMS"].split(",")
 
@@ -294,6 +295,9 @@ def build_mixed_case(r, art, ref, rng, alloc):
         inputs[si], feed[oi] = data, data
     want = ref.run(inputs)
     expect, layout = [], []
+    if len(ref.sg["outputs"]) != len(sg["outputs"]):
+        # (one tensor listed twice among the source's outputs comes out once: the open C11 finding, not a question of values)
+        raise refnet.Unsupported("number of graph outputs differs between source and output model (C11)")
     for si in ref.sg["outputs"]:
         v = want[si].reshape(-1)
         ty = ref.tens(si)["type"]
@@ -509,7 +513,7 @@ def run(tier):
     rw_cov = rewrite_decisions(res, tier, okm and b["ok"])
     rw_cov["widened_kernels"] = widened_kernels(res, tier, okm and b["ok"])
     rw_cov["pad_splits"] = pad_splits(res, tier, okm and b["ok"])
-    n = 440 if tier == "quick" else 3200
+    n = 470 if tier == "quick" else 3400
     max_macs = 1200000 if tier == "quick" else 30000000
     rng = random.Random("c01/%d" % vlib.seed())
     jobs = compiles.corpus_jobs(capture=False) + compiles.plan(FAMS, n, vlib.seed(), tag="c01", capture=False)
